@@ -273,35 +273,36 @@ def r4_vertical_table(ctx):
   it = tables.interp(ctx)
   rs.exhaustive = True
   rows = 0
+  # consumer entries come one per operand OCCURRENCE (an op reading the tensor twice is listed twice), the
+  # producer's consumer list comes from graph info, one per OPERATOR: both multiplicities are enumerated
   for pt, ct, same in itertools.product(members, members, [True, False]):
-    for extra_consumer in (False, True):
+    for extra_consumer, group in itertools.product((False, True), ([2, 5], [2, 2, 5], [5, 2, 2])):
       prod_consumers = [2, 5] + ([7] if extra_consumer else [])
       prod = Obj(TI, {'transformation': pt, 'tensor_id': 3, 'producer': 1, 'consumers': list(prod_consumers), 'parameters': 'P'})
-      cons = Obj(TI, {'transformation': ct, 'tensor_id': 3, 'producer': 1, 'consumers': [2, 5], 'parameters': 'P' if same else 'C'})
+      cons = Obj(TI, {'transformation': ct, 'tensor_id': 3, 'producer': 1, 'consumers': list(group), 'parameters': 'P' if same else 'C'})
       outs = it.outcomes(f, [Obj('x:self', {}), prod, [cons]])
       rows += 1
+      label = f'producer={pt.name} consumer={ct.name} same_params={same} other_consumers={extra_consumer} consumer entries={group}'
       if len(outs) != 1 or outs[0].kind != 'return':
-        ctx.check(R, False, f.node, f, f'{pt.name}/{ct.name}/same={same}', f'table row is not decided: {[o.short() for o in outs]}')
+        ctx.check(R, False, f.node, f, label, f'table row is not decided or raises: {[o.short() for o in outs]} - quantize() fails on a legal graph (an operator reading the tensor twice)')
         continue
       res = outs[0].value
       got = [(x.fields['transformation'].name, x.fields['parameters'], list(x.fields['consumers'])) for x in res]
       if pt.name == 'ADD_DEQUANTIZE' and ct.name == 'ADD_QUANTIZE' and same:
-        want_tail = [('QUANTIZE_TENSOR', 'P', [2, 5])]
+        want_tail = [('QUANTIZE_TENSOR', 'P', group)]
         removed = True
       elif pt.name == 'ADD_DEQUANTIZE' and ct.name == 'ADD_QUANTIZE' and not same:
-        want_tail = [('QUANTIZE_TENSOR', 'P', [2, 5]), ('ADD_QUANTIZE', 'C', [2, 5])]
+        want_tail = [('QUANTIZE_TENSOR', 'P', group), ('ADD_QUANTIZE', 'C', group)]
         removed = True
       elif pt.name == 'ADD_DEQUANTIZE' and ct.name == 'NO_QUANTIZE':
-        want_tail = [('ADD_DEQUANTIZE', 'P', [2, 5])]
+        want_tail = [('ADD_DEQUANTIZE', 'P', group)]
         removed = True
       else:
-        want_tail = [(ct.name, 'P' if same else 'C', [2, 5])]
+        want_tail = [(ct.name, 'P' if same else 'C', group)]
         removed = False
       left = [c for c in prod_consumers if not (removed and c in (2, 5))]
       want = ([(pt.name, 'P', left)] if left else []) + want_tail
-      ctx.check(R, got == want, f.node, f,
-                f'producer={pt.name} consumer={ct.name} same_params={same} other_consumers={extra_consumer}',
-                f'vertical optimisation emits {got}, specification requires {want}')
+      ctx.check(R, got == want, f.node, f, label, f'vertical optimisation emits {got}, specification requires {want}')
       if rows == 3:
         ctx.sample(R, {'producer': pt.name, 'consumer': ct.name, 'same': same, 'emits': got})
   # the three predicates are pairwise disjoint by construction of the table above
@@ -496,6 +497,7 @@ def run(ctx):
   r7_float_casting(ctx)
   r8_exact_equality(ctx)
   r9_rewire_multiplicity(ctx)
+  shared.rule_graph_rewrite_simulation(ctx, 'C03.R11', 'graph rewriting on label graphs: every occurrence of the tensor in a covered consumer reads the new tensor, uncovered consumers keep the source; the tensor annotated as quantized is the one the mode requires')
   from sa.rules import c11  # pylint: disable=g-import-not-at-top
   c11.r23_resolution_table(ctx, 'C03.R10', 'an op resolves to no-quantize when its scope is unmatched, the rule says no_quantize, the rule targets another op, '
                            'or the rule\'s config is not supported for the op (single-rule stores x 3 ops x 3 scopes)', single_only=True)
